@@ -153,8 +153,8 @@ func propC12(a *Analysis, r *Registry) {
 			env := X.EnvFor(fn, "kde", "x")
 			env.Let("bc", "kde.prepare()#1")
 			z, n := fc.ReturnCond(constRet("0"))
-			if n != 1 {
-				r.Fail("C-decision boundary", "stats.(*KDE).PDF/returns-0", b.pos(fn), "expected one `return 0` outside the support")
+			if n < 1 {
+				r.Fail("C-decision boundary", "stats.(*KDE).PDF/returns-0", b.pos(fn), "expected a `return 0` outside the support")
 				return
 			}
 			b.Eq("C-decision boundary", "stats.(*KDE).PDF/returns-0", b.pos(fn), z, env, "bc && (x<kde.BoundaryMin || kde.BoundaryMax<=x)")
@@ -167,7 +167,7 @@ func propC12(a *Analysis, r *Registry) {
 			env.Let("bc", "kde.prepare()#1")
 			z, n0 := fc.ReturnCond(constRet("0"))
 			o, n1 := fc.ReturnCond(constRet("1"))
-			if n0 != 1 || n1 != 1 {
+			if n0 < 1 || n1 < 1 {
 				r.Fail("C-decision boundary", "stats.(*KDE).CDF", b.pos(fn), "expected `return 0` below and `return 1` above the support")
 				return
 			}
